@@ -9,13 +9,15 @@ open Convergen
 variable (ctx : BCtx)
 
 /-- **T16.1 (`sliceToSlice` decision = spec).** A slice pair gets a copying statement exactly when
-the element types are assignable (plain copy for basic source elements, element loop otherwise)
-or — only under `:typecast` — convertible (converting loop); otherwise none. -/
+the element types are assignable — `make` + `copy` when they are basic and identical, `make` + an
+element loop otherwise — or, only under `:typecast`, convertible (converting loop); otherwise none. -/
 theorem slice_branch_spec (lhs rhs : Node) (s : Stmt) (h : ctx.sliceToSlice lhs rhs = .ok (some s)) :
     let le := ctx.env.sliceElem (lhs.exprType ctx.env)
     let re := ctx.env.sliceElem (rhs.exprType ctx.env)
-    (ctx.env.assignable re le = true ∧ ctx.env.isBasicType re = true ∧ ∃ t, s = .sliceCopy lhs rhs t) ∨
-    (ctx.env.assignable re le = true ∧ ctx.env.isBasicType re = false ∧ ∃ t, s = .sliceLoop lhs rhs t) ∨
+    (ctx.env.assignable re le = true ∧ ctx.env.isBasicType re = true ∧ ctx.env.identical re le = true ∧
+       ∃ t, s = .sliceCopy lhs rhs t) ∨
+    (ctx.env.assignable re le = true ∧ (ctx.env.isBasicType re && ctx.env.identical re le) = false ∧
+       ∃ t, s = .sliceLoop lhs rhs t) ∨
     (ctx.env.assignable re le = false ∧ ctx.opts.typecast = true ∧ ctx.env.convertible re le = true ∧
        ∃ t c, s = .sliceCast lhs rhs t c) := by
   unfold BCtx.sliceToSlice at h
@@ -24,12 +26,13 @@ theorem slice_branch_spec (lhs rhs : Node) (s : Stmt) (h : ctx.sliceToSlice lhs 
   by_cases ha : ctx.env.assignable re le = true
   · simp only [le, re] at ha
     simp only [ha, ↓reduceIte] at h
-    by_cases hb : ctx.env.isBasicType re = true
-    · simp only [re] at hb
+    by_cases hb : (ctx.env.isBasicType re && ctx.env.identical re le) = true
+    · simp only [re, le] at hb
       simp only [hb, ↓reduceIte] at h
       cases h
-      exact Or.inl ⟨ha, hb, _, rfl⟩
-    · simp only [re] at hb
+      simp only [Bool.and_eq_true] at hb
+      exact Or.inl ⟨ha, hb.1, hb.2, _, rfl⟩
+    · simp only [re, le] at hb
       simp only [hb, Bool.false_eq_true, ↓reduceIte] at h
       cases h; exact Or.inr (Or.inl ⟨ha, by simpa using hb, _, rfl⟩)
   · simp only [le, re] at ha
@@ -40,12 +43,21 @@ theorem slice_branch_spec (lhs rhs : Node) (s : Stmt) (h : ctx.sliceToSlice lhs 
       cases h; exact Or.inr (Or.inr ⟨by simpa using ha, ht.1, ht.2, _, _, rfl⟩)
     · cases h
 
+/-- **`copy()` only between identical element types** (the repaired DESIGN §5 #4) -/
+theorem copy_needs_identical (lhs rhs : Node) (t : String)
+    (h : ctx.sliceToSlice lhs rhs = .ok (some (.sliceCopy lhs rhs t))) :
+    ctx.env.identical (ctx.env.sliceElem (rhs.exprType ctx.env)) (ctx.env.sliceElem (lhs.exprType ctx.env)) = true := by
+  rcases slice_branch_spec ctx lhs rhs _ h with h1 | h2 | h3
+  · exact h1.2.2.1
+  · obtain ⟨_, _, _, he⟩ := h2; cases he
+  · obtain ⟨_, _, _, _, _, he⟩ := h3; cases he
+
 /-- no converting loop without the opt-in -/
 theorem no_cast_without_typecast (lhs rhs : Node) (t c : String) (hoff : ctx.opts.typecast = false) :
     ctx.sliceToSlice lhs rhs ≠ .ok (some (.sliceCast lhs rhs t c)) := by
   intro h
   rcases slice_branch_spec ctx lhs rhs _ h with h1 | h2 | h3
-  · obtain ⟨_, _, _, he⟩ := h1; cases he
+  · obtain ⟨_, _, _, _, he⟩ := h1; cases he
   · obtain ⟨_, _, _, he⟩ := h2; cases he
   · rw [hoff] at h3; exact absurd h3.2.1 (by simp)
 
